@@ -223,6 +223,9 @@ API = {
     "PyObject_GC_Del": F("void"),
     "PyObject_Free": F("void"),
     # 0 on success; non-zero with RecursionError set
+    "PyUnicode_FindChar": F("int", "neg"),
+    "PyUnicode_ReadChar": F("int", "neg1-occurred"),
+    "PyUnicode_READ_CHAR": F("int"),
     "Py_EnterRecursiveCall": F("int", "nonzero"),
     "Py_LeaveRecursiveCall": F("void"),
     "PyGILState_Ensure": F("int"),
